@@ -18,6 +18,7 @@ import (
 // builds / parses service messages by hand. Nothing in it calls gotd/td, so the
 // peer's view never depends on the code under test being right.
 type Peer struct {
+	stall chan struct{} // non-nil: the peer does not read (see StallReads)
 	Conn    net.Conn
 	Key     [256]byte
 	T0      time.Time
@@ -87,6 +88,12 @@ func (p *Peer) Serve() {
 		return
 	}
 	for {
+		p.mu.Lock()
+		stall := p.stall
+		p.mu.Unlock()
+		if stall != nil {
+			<-stall // the peer has stopped reading: the client's writes block (a half-open link)
+		}
 		if _, err := io.ReadFull(p.Conn, hdr[:]); err != nil {
 			p.setErr(err)
 			return
@@ -97,12 +104,39 @@ func (p *Peer) Serve() {
 			return
 		}
 		wire := make([]byte, n)
+		p.mu.Lock()
+		stall = p.stall
+		p.mu.Unlock()
+		if stall != nil {
+			<-stall // stalled inside a frame: its length word was taken, the rest stays in the client's write
+		}
 		if _, err := io.ReadFull(p.Conn, wire); err != nil {
 			p.setErr(err)
 			return
 		}
 		p.handleFrame(wire)
 	}
+}
+
+// StallReads makes the peer stop reading after the frame it is reading now
+// (if any); ResumeReads lets it continue. While stalled, whatever the client
+// writes blocks in the transport.
+func (p *Peer) StallReads() {
+	p.mu.Lock()
+	if p.stall == nil {
+		p.stall = make(chan struct{})
+	}
+	p.mu.Unlock()
+}
+
+// ResumeReads ends a stall.
+func (p *Peer) ResumeReads() {
+	p.mu.Lock()
+	if p.stall != nil {
+		close(p.stall)
+		p.stall = nil
+	}
+	p.mu.Unlock()
 }
 
 func (p *Peer) setErr(err error) {
